@@ -9,17 +9,19 @@ import re
 from hypothesis import strategies as st
 
 from pbt.runner import Check
-from pbt.gens import netgen
+from pbt.gens import netgen, bandnets
 
 PROPERTY = 'C08'
 RULE = ('Hypothesis-generated equipment library (2-6 amplifier models of all NF kinds, Span with padding 0-15 dB, '
         'max_length 80-200 km, EOL, connectors, power/gain mode) and mesh topology (2-5 ROADMs, 1-3 spans per direction, '
         'fibres from 5 m to 400 km incl. per-frequency loss and lumped losses, fused junctions, user amplifiers with '
         'full/partial/no settings or variety lists, RamanFiber spans in a sub-check) run through the real '
-        'designed_network(); the designed graph is judged by a validity predicate. Non-trivial = design performed >=1 '
-        'fibre split and >=1 amplifier insertion and >=1 padding, or consumed a partially-set user amplifier. '
+        'designed_network(); the designed graph is judged by a validity predicate. A third sub-check uses networks mixing '
+        'single-band and C+L multiband amplifiers. Non-trivial = design performed >=1 fibre split and >=1 amplifier insertion '
+        'and >=1 padding, or consumed a partially-set user amplifier, or inserted amplifiers in a multiband network. '
         'distinct = sha1 of the case JSON.')
-ASSUMPTIONS = ['well-formed = what pbt/gens/netgen.py builds: one-in/one-out chains with >=1 fibre between ROADMs, library '
+ASSUMPTIONS = ['amplifier bands have their centre inside the band definitions of gnpy.core.parameters (L: 187-189 THz, C: 191.3-196 THz)',
+               'well-formed = what pbt/gens/netgen.py builds: one-in/one-out chains with >=1 fibre between ROADMs, library '
                'varieties exist, restriction lists name band-covering non-Raman amplifiers, RamanFiber has numeric connectors',
                'span padding is judged for amplifier-terminated chains that start and end with a (non-Raman) fibre']
 
@@ -43,6 +45,21 @@ def design_case(draw, raman=False, long_fibres=True):
                         ll['position'] = round(ll['position'] * k, 3)
     return {'eq': eq, 'topo': topo, 'truth': truth,
             'raman_flag': bool(raman and draw(st.booleans()))}
+
+
+@st.composite
+def multiband_case(draw):
+    """networks whose links carry different band classes incl. C+L Multiband_amplifier (typed, untyped, reduced)"""
+    edges = draw(bandnets.band_edges(same_fmax=draw(st.booleans())))
+    # gnpy names the band of an amplifier after the centre of its range (L band: centre within 187-189 THz, C band:
+    # 191.3-196 THz); a reduced L model starting at 188 THz has its centre outside and cannot be indexed at all
+    if (edges['Lred'][0] + edges['Lred'][1]) / 2 > 189e12:
+        edges['Lred'][0] = 187.3e12
+    classes = draw(st.sampled_from([['CL', 'CLred', 'CLauto'], ['auto', 'C', 'Cred', 'CL'], ['CL'], ['CLauto', 'CL'],
+                                    ['auto', 'Cshort', 'Cred2', 'C']]))
+    topo, truth = draw(bandnets.band_topology(classes, edges, n=(2, 4), extra_max=2))
+    eq = bandnets.library(edges, 'C', draw(st.booleans()))
+    return {'eq': eq, 'topo': topo, 'truth': {'n': truth['n'], 'links': truth['links']}}
 
 
 def _chains(network, elements):
@@ -282,7 +299,11 @@ def run_design(case, ctx):
             ctx.label('did:pad')
         if partial:
             ctx.label('did:partial-user-amp')
-        ctx.nontrivial((nsplit >= 1 and inserted >= 1 and padded >= 1) or (partial and inserted >= 1))
+        multiband = any(isinstance(n, elements.Multiband_amplifier) for n in network.nodes())
+        if multiband:
+            ctx.label('feat:multiband')
+        ctx.nontrivial((nsplit >= 1 and inserted >= 1 and padded >= 1) or (partial and inserted >= 1)
+                       or (multiband and inserted >= 1))
     finally:
         netgen.reset_sim_params()
 
@@ -300,4 +321,6 @@ CHECKS = [
           doc='validity predicate on designed generated meshes'),
     Check('design-raman', design_case(raman=True, long_fibres=False), run_design, quick=60, thorough=1500,
           doc='same with RamanFiber spans (Raman flag on/off)'),
+    Check('design-multiband', multiband_case(), run_design, quick=200, thorough=6000,
+          doc='same on networks mixing single-band and C+L multiband amplifiers'),
 ]
